@@ -308,12 +308,19 @@ impl<'a, S: Setup> G<'a, S> {
             None => self.new_const(S::E::ZERO),
         };
         let alpha = self.var();
+        // one chain in three changes its evaluation point along the way and comes back to it
+        // (x,y,x / x,y,y,x ..): packed-Horner windows must not span a change of `b`
+        let alpha2 = if chance(self.rng, 1, 3) { Some(self.var()) } else { None };
         let k = self.rng.random_range(1..7usize);
         let pairs: Vec<(V, V)> = (0..k).map(|_| (self.var(), self.var())).collect();
         let mut acc = zero;
         for (z, x) in pairs {
-            let v = self.vals[acc] * self.vals[alpha] + self.vals[z] - self.vals[x];
-            acc = self.push(Stmt::Horner { acc, alpha, z, x }, vec![v]);
+            let al = match alpha2 {
+                Some(a2) if chance(self.rng, 2, 5) => a2,
+                _ => alpha,
+            };
+            let v = self.vals[acc] * self.vals[al] + self.vals[z] - self.vals[x];
+            acc = self.push(Stmt::Horner { acc, alpha: al, z, x }, vec![v]);
         }
     }
     fn horner(&mut self) {
